@@ -35,11 +35,13 @@ def setup_repo_import():
 
 
 def load_known_findings():
-    p = os.path.join(VERIF, 'known_findings.json')
-    if not os.path.exists(p):
-        return []
-    with open(p) as f:
-        return json.load(f)['findings']
+    out = []
+    import glob
+    for p in [os.path.join(VERIF, 'known_findings.json')] + sorted(glob.glob(os.path.join(VERIF, 'known_findings.d', '*.json'))):
+        if os.path.exists(p):
+            with open(p) as f:
+                out += json.load(f)['findings']
+    return out
 
 
 class Ctx:
